@@ -74,7 +74,8 @@ class Check(object):
         if shuffle:
             random.Random(self.seed).shuffle(units)
         nproc = max(1, min(nproc, len(units)))
-        tag = 'd%d' % len(self.cov['stages'])
+        self._ndrive = getattr(self, '_ndrive', 0) + 1
+        tag = 'd%d' % self._ndrive
         procs = []
         for i in range(nproc):
             p = multiprocessing.Process(target=_drive_proc, args=(self.work, tag, i, units[i::nproc], worker))
